@@ -8,7 +8,7 @@ import re
 
 from checks import _codec
 from checks._codec import Codec, events, macro_placeholders, unplaceholder
-from nvsa import j2front
+from nvsa import j2front, pyfront
 from nvsa.j2front import xs
 from nvsa.report import AnalysisError
 
@@ -239,3 +239,8 @@ def run(ctx):
     rule_symmetry(ctx, cd)
     rule_option_scope(ctx, cd)
     rule_xlang(ctx, cd)
+    # single-language specialisations whose failure makes one target (or one option point) disagree with the others
+    _codec.rule_zero_cost(ctx, pyfront.PyIndex(ctx.root), "R-C03-ZEROCOST")
+    _codec.rule_sat_use(ctx, cd, "R-C03-SAT-USE")
+    _codec.rule_offset_sets(ctx, cd, "ser", "R-C03-OFFSET-SET-SER")
+    _codec.rule_offset_sets(ctx, cd, "des", "R-C03-OFFSET-SET-DES")
